@@ -11,6 +11,8 @@
 -/
 import BB.Model.WaitCond
 import BB.Model.Buffer
+import BB.Proofs.BufferParam
+import BB.Proofs.Buffer
 import BB.Core.Fair
 
 namespace BB.Props.C05
@@ -250,5 +252,54 @@ theorem failed_get_no_advance (s : BB.Buffer.St) (c : Nat) (h : ∀ v, BB.Buffer
   | val v => exact absurd hg (h v)
   | pending => cases s.cons[c]? <;> rfl
   | err e => cases s.cons[c]? <;> rfl
+
+/-! ### The predicate a parked Get waits for does not look at the values
+
+  `nil` is a legal value (`Put(ctx, nil)`); whether a Get has to wait depends on positions only.  Stated as: renaming the
+  values by ANY function `f` (e.g. one that sends a value to the model's stand-in for nil) commutes with Get and Put, and leaves
+  "has to wait" unchanged. -/
+
+theorem waiting_ignores_values (f : Nat → Nat) (s : BB.Buffer.St) (c : Nat) :
+    BB.Buffer.getTry (s.mapV f) c = .pending ↔ BB.Buffer.getTry s c = .pending := by
+  rw [BB.Buffer.getTry_mapV]
+  cases BB.Buffer.getTry s c <;> simp [BB.Buffer.GetR.mapV]
+
+theorem get_commutes_with_renaming (f : Nat → Nat) (s : BB.Buffer.St) (c : Nat) :
+    BB.Buffer.get (s.mapV f) c = ((BB.Buffer.get s c).1.mapV f, (BB.Buffer.get s c).2.mapV f) :=
+  BB.Buffer.get_mapV f s c
+
+theorem put_commutes_with_renaming (f : Nat → Nat) (s : BB.Buffer.St) (vs : List Nat) :
+    BB.Buffer.put (s.mapV f) (vs.map f) = ((BB.Buffer.put s vs).1.mapV f, (BB.Buffer.put s vs).2) :=
+  BB.Buffer.put_mapV f s vs
+
+/-- a Get that has to wait (in a state satisfying the buffer invariant, i.e. any reachable one: `BB.Buffer.inv_*`) is served by
+    the next Put, and returns exactly the value put — for ANY value `v` -/
+theorem put_of_any_value_ends_the_wait (s : BB.Buffer.St) (c : Nat) (k : BB.Buffer.Cons) (v : Nat)
+    (hinv : BB.Buffer.Inv s) (hk : s.cons[c]? = some k) (hw : BB.Buffer.getTry s c = .pending) :
+    (BB.Buffer.get (BB.Buffer.put s [v]).1 c).2 = .val v := by
+  -- from `pending`: not cancelled, open, registered, not past, and the position is exactly past the end or beyond
+  unfold BB.Buffer.getTry at hw
+  rw [hk] at hw
+  simp only at hw
+  by_cases h1 : k.cancelled = true
+  · simp [h1] at hw
+  by_cases h2 : s.closed = true
+  · simp [h1, h2] at hw
+  by_cases h3 : (!k.registered) = true
+  · simp [h1, h2, h3] at hw
+  by_cases h4 : k.committed + k.delta < s.base
+  · simp [h1, h2, h3, h4] at hw
+  simp only [h1, h2, h3, h4, if_false, Bool.false_eq_true] at hw
+  have hpos := (hinv.cons_ok k (List.mem_of_getElem? hk)).pos_le
+  have hlen : s.buf.length = s.log.length - s.base := by rw [hinv.buf_eq]; simp
+  have hnone : s.buf[k.committed + k.delta - s.base]? = none := by
+    cases hb : s.buf[k.committed + k.delta - s.base]? with
+    | none => rfl
+    | some x => rw [hb] at hw; simp at hw
+  have hge := List.getElem?_eq_none_iff.mp hnone
+  have hidx : k.committed + k.delta - s.base = s.buf.length := by omega
+  simp [BB.Buffer.put, h2, BB.Buffer.get, BB.Buffer.getTry, hk, h1, h3, h4, hidx]
+
+example : (BB.Buffer.get (BB.Buffer.put (BB.Buffer.newConsumer {}).1 [0]).1 0).2 = .val 0 := by decide
 
 end BB.Props.C05
